@@ -891,7 +891,7 @@ MUTANTS += [
 ]
 # to be armed once the interpreter gives arrays of Python ints an integer element type (REQ2_C11 item 1): today the
 # model has one number type and the mutant is not seen
-MUTANTS_PENDING_INTERPRETER = [
+MUTANTS += [
     {'name': 'Reaction keeps reactants_stoich as a numpy array (list() of it holds np.int64)',
      'expect': ('TABLE.encode', 'Reaction'),
      'edits': [(R_, "        val = _check_iterable_attr(val)\n        self._reactants_stoich = val\n",
